@@ -136,6 +136,7 @@ type c02Schedule struct {
 	Cache              string // on off autoreload
 	Loader             string // array chain fs
 	NCalls             int
+	Debug              bool // engine in debug mode (traces and timing go through the process-wide debugger)
 }
 
 func c02Marker(name string) string { return "⟦" + name + "⟧" }
@@ -181,6 +182,7 @@ func c02Tree() (map[string]string, map[string][]string, map[string][]string) {
 }
 
 type c02World struct {
+	wild      *WildEntry // corpus entry whose templates take part in this schedule
 	srcs      map[string]string // all templates by name (tree names carry the .twig suffix for fs/array lookups where needed)
 	entries   []string
 	must      map[string][]string
@@ -237,6 +239,33 @@ func (p *c02) world(r *core.Rand, sched c02Schedule) (*c02World, error) {
 	w.srcs["attrs"] = c02Marker("attrs") + "{{ obj.Name }}|{{ obj.Count }}|{{ pobj.Name }}|{{ obj.Inner.Deep }}|{{ pobj.Label }}|{{ obj.Missing }}|{% for it in objs %}{{ it.Name }}{{ it.Count }},{% endfor %}"
 	w.srcs["attrs2"] = c02Marker("attrs2") + "{% for i in [1, 2, 3] %}{{ obj.Count }}{{ pobj.Count }}{{ other.Title }}{{ other.N }}{% endfor %}{{ other.Upper }}"
 	w.entries = append(w.entries, "attrs", "attrs2")
+	for tries := 0; tries < 6 && w.wild == nil; tries++ {
+		we, ok := wildPick(r)
+		if !ok {
+			break
+		}
+		free := true
+		for n, src0 := range we.Templates {
+			if _, taken := w.srcs[n]; taken || strings.HasSuffix(n, ".twig") {
+				free = false
+			}
+			if _, taken := tree[n]; taken {
+				free = false
+			}
+			if len(src0) > 3000 {
+				free = false
+			}
+		}
+		if !free {
+			continue
+		}
+		for n, src := range we.Templates {
+			w.srcs[n] = src
+		}
+		w.entries = append(w.entries, we.Render, we.Render)
+		wcopy := we
+		w.wild = &wcopy
+	}
 	w.entries = append(w.entries, ts.Entries...)
 	for n := range must {
 		w.entries = append(w.entries, n+".twig")
@@ -314,6 +343,9 @@ func (w *c02World) newEngine(sched c02Schedule) *twig.Engine {
 			e.RegisterLoader(twig.NewArrayLoader(cp()))
 		}
 	}
+	if sched.Debug {
+		e.SetDebug(true)
+	}
 	switch sched.Cache {
 	case "off":
 		e.SetCache(false)
@@ -341,6 +373,11 @@ func (o c02Other) Upper() string { return strings.ToUpper(o.Title) }
 
 func (w *c02World) ctx(k int) map[string]interface{} {
 	m := w.ts.GoCtxVariant(k)
+	if w.wild != nil {
+		for n, v := range w.wild.Ctx(nil) {
+			m[n] = v
+		}
+	}
 	m["v"] = fmt.Sprintf("V%d", k)
 	m["obj"] = c02Obj{Name: fmt.Sprintf("obj%d", k), Count: 10 + k, Inner: c02Inner{Deep: "deep"}}
 	m["pobj"] = &c02Obj{Name: fmt.Sprintf("pobj%d", k), Count: 20 + k}
@@ -426,6 +463,7 @@ func (p *c02) Run(rec *core.Recorder, seed uint64, idx int, tier string) {
 		Loader:   []string{"array", "chain", "fs", "fs"}[r.Intn(4)],
 		NCalls:   r.Range(40, 300),
 	}
+	sched.Debug = r.P(1, 5)
 	if idx < 6 {
 		// regression witnesses: token-buffer race (cache off, many parses), first-load storm through the file-system loader
 		sched = []c02Schedule{
